@@ -17,6 +17,8 @@ import TracklibVerif.Drv.Util
   simplify <s> <smode> <sig> <glob> <WD> <WG> → `simplifyFree` (smode 7, 8: `<sig>`/`WD` describe the function given as
                                   `tolerance`) or `simplifyBuiltin` (smode 4, 5, 6: `WG` is the built-in cost at the tolerance given,
                                   `<glob>` says whether the tolerance is `None`); other smode: `bad-request`
+  simplifyc <s> <smode> <sig> <glob> <WD> <WG> → `collectionSimplifyFree` (smode 7, 8) on a collection of two such tracks: the two
+                                  index lists joined by `|`, or the first error
   matrix <s> <W>                → `segMatrixL` (loop form) of `optimalSegmentation` for `cost(track,i,j-1) = W[i][j]`, all rows
   stops <s> <far> <short> <small> <keep>
                                 → `<reward matrix> <segmentation> <stops>`: `stopsMatrix` (loop form with the `break`),
@@ -112,6 +114,14 @@ def runPy {α} [Add α] [LT α] [DecidableLT α] (zero : α) (cmd : String) (mod
         match r with
         | some r => showRes r
         | none => "bad-request"
+      | "simplifyc" =>
+        -- `TrackCollection([track, track']).simplify(cost, smode)` on two tracks of the same `size` observations
+        if mode == 7 || mode == 8 then
+          match collectionSimplifyFree zero c mode [List.range size, List.range size] with
+          | some (.ok rs) => joinWith "|" (rs.map (showList toString))
+          | some (.error e) => showErr e
+          | none => "bad-request"
+        else "bad-request"
       | _ => "bad-request"
     | _, _ => "bad-request"
 
